@@ -244,7 +244,7 @@ def run_check(tier, seed):
         def do_base(sn):
             scen, n = sn
             return sn, run_case(exe, wd, 'b_%s_%d' % (scen, n), scen, n, -1, 0, 0, watchdog)
-        with ThreadPoolExecutor(6) as ex:
+        with ThreadPoolExecutor(24) as ex:
             for sn, (rc, logs, err) in ex.map(do_base, SCENARIOS):
                 base[sn] = (rc, logs, err)
         plan = []           # (scen, n, rank, k, classname, key)
@@ -287,7 +287,7 @@ def run_check(tier, seed):
             i, (scen, n, rank, k, cn, key) = i_item
             return i_item, run_case(exe, wd, 'i%d' % i, scen, n, rank, k, clsval[cn], watchdog)
         results = []
-        with ThreadPoolExecutor(12) as ex:
+        with ThreadPoolExecutor(24) as ex:
             for item, r in ex.map(do_inj, list(enumerate(plan))):
                 results.append((item, r))
         # model predictions
